@@ -70,3 +70,37 @@ Definition table_ok (c : table_case) : bool :=
   | Some row => list_eqb newarg_eqb (snd row) info
   | None => false
   end.
+
+(** jwt-decode-verify's options dict (Model/JwtOpts.v) *)
+From CM Require Import Model.JwtOpts Spec.JwtOptsSpec.
+Definition delem_eqb (a b : delem) : bool :=
+  match a, b with
+  | DKey s k l v, DKey s' k' l' v' => Bool.eqb s s' && str_eqb k k' && N.eqb l l' && expr_eqb v v'
+  | DSpread l e, DSpread l' e' => N.eqb l l' && expr_eqb e e'
+  | _, _ => false
+  end.
+Definition erase_delem (d : delem) : delem :=
+  match d with DKey s k _ v => DKey s k 0 (erase v) | DSpread _ e => DSpread 0 (erase e) end.
+(** (dict entries, observed entries or None when the implementation raised / left the file untouched) *)
+Definition jwt_case := (list delem * option (list delem))%type.
+Definition jwt_model_ok (c : jwt_case) : bool :=
+  let '(els, obs) := c in option_eqb (list_eqb delem_eqb) (replace_opts_dict els) obs.
+Definition jwt_ast_model_ok (c : jwt_case) : bool :=
+  let '(els, obs) := c in
+  option_eqb (list_eqb delem_eqb) (option_map (map erase_delem) (replace_opts_dict els)) (option_map (map erase_delem) obs).
+(** raising (file untouched) is not a violation; a rewrite must be the documented edit, spreads included *)
+Definition jwt_spec_ok (c : jwt_case) : bool :=
+  let '(els, obs) := c in
+  match obs with
+  | None => true
+  | Some r => list_eqb delem_eqb (map erase_delem r) (map erase_delem (spec_opts els))
+  end.
+Definition jwt_arg_eqb (a b : jwt_arg) : bool :=
+  match a, b with
+  | JOther x, JOther y => arg_eqb_with expr_eqb x y
+  | JOptions s l els, JOptions s' l' els' => N.eqb s s' && N.eqb l l' && list_eqb delem_eqb els els'
+  | _, _ => false
+  end.
+Definition jarg_case := (list jwt_arg * option (list jwt_arg))%type.
+Definition jarg_model_ok (c : jarg_case) : bool :=
+  let '(args, obs) := c in option_eqb (list_eqb jwt_arg_eqb) (replace_options_arg args) obs.
